@@ -34,11 +34,16 @@ def mk_meta(rng, b, with_name=None):
 DAY = 86_400 * SEC
 
 
-def rand_ev(rng, grid=8):
+def rand_ev(rng, grid=8, base=T0):
     dur = rng.choice([0, 0, SEC, 2 * SEC, 3 * SEC])
     if rng.random() < 0.06:  # day-scale durations (timedelta keeps days, seconds and microseconds apart)
         dur = rng.choice([DAY, DAY + SEC, 2 * DAY + 1500, 30 * DAY])
-    return [None, T0 + rng.randrange(grid) * SEC, dur, rng.choice(LABELS)]
+    return [None, base + rng.randrange(grid) * SEC, dur, rng.choice(LABELS)]
+
+
+# histories whose instants straddle the Unix epoch (events that start and end before 1970, that reach across it, that
+# start on it): instants are signed microsecond counts, nothing in the property stops at 1970
+EPOCH_BASE = -4 * SEC
 
 
 class HistGen:
@@ -48,6 +53,7 @@ class HistGen:
         self.rng = rng
         self.buckets = (BUCKETS_LIKE if rng.random() < 0.15 else BUCKETS)[:nbuckets]
         self.grid = grid
+        self.base = EPOCH_BASE if rng.random() < 0.12 else T0
         self.ops = []
         self.nrefs = 0
         self.live = {b: [] for b in self.buckets}
@@ -57,7 +63,7 @@ class HistGen:
             self.ops.append(["create", b, mk_meta(self.rng, b)])
 
     def op_insert(self, b):
-        self.ops.append(["insert", b, rand_ev(self.rng, self.grid)])
+        self.ops.append(["insert", b, rand_ev(self.rng, self.grid, self.base)])
         self.live[b].append(self.nrefs)
         self.nrefs += 1
 
@@ -66,10 +72,10 @@ class HistGen:
         n = self.rng.randint(0, 4)
         ups = self.rng.sample(self.live[b], min(len(self.live[b]), self.rng.randint(0, 2)))
         for r in ups:
-            e = rand_ev(self.rng, self.grid)
+            e = rand_ev(self.rng, self.grid, self.base)
             e[0] = ["ref", r]
             evs.append(e)
-        new = [rand_ev(self.rng, self.grid) for _ in range(n)]
+        new = [rand_ev(self.rng, self.grid, self.base) for _ in range(n)]
         evs += new
         self.rng.shuffle(evs)
         self.ops.append(["bulk", b, evs])
@@ -81,7 +87,7 @@ class HistGen:
     def carried(self):
         """the event object passed to replace / replace_last may carry any id of its own (e.g. an event that was
         read back earlier): the addressed id is what counts"""
-        e = rand_ev(self.rng, self.grid)
+        e = rand_ev(self.rng, self.grid, self.base)
         everything = [r for x in self.buckets for r in self.live[x]]
         if everything and self.rng.random() < 0.3:
             e[0] = ["ref", self.rng.choice(everything)]
